@@ -172,6 +172,18 @@ class ASTToPymbolic(ASTMapper):
 
         return op_constructor(self.rec(expr.operand))
 
+    def map_BoolOp(self, expr):  # noqa
+        # (boolop op, expr* values)
+        children = tuple([self.rec(value) for value in expr.values])
+        if isinstance(expr.op, ast.And):
+            return p.LogicalAnd(children)
+        elif isinstance(expr.op, ast.Or):
+            return p.LogicalOr(children)
+        else:
+            raise NotImplementedError(
+                f"{type(self).__name__} does not know how to map operator "
+                f"'{type(expr.op).__name__}'")
+
     def map_IfExp(self, expr):  # noqa
         # (expr test, expr body, expr orelse)
         return p.If(self.rec(expr.test), self.rec(expr.body), self.rec(expr.orelse))
